@@ -69,5 +69,8 @@ CNext(c, e, zt) ==
   ELSE IF ~e.zero /\ e.r <= e.t THEN Bad("next: result-not-after-t")
   ELSE IF ~e.zero /\ WallOf(c.ed, zt, e.r) # e.wall THEN Bad("SPEC-CALENDAR-MISMATCH")
   ELSE LET js == {Judge(c.set, rule, c.ed, zt, e) : rule \in c.rules} IN
-       IF "" \in js THEN c ELSE Bad(CHOOSE j \in js : TRUE)
+       (* both readings of an unsettled day rule are accepted; if neither holds, report the milder failure *)
+       IF "" \in js THEN c
+       ELSE IF Judge(c.set, "or", c.ed, zt, e) \in js /\ "or" \in c.rules THEN Bad(Judge(c.set, "or", c.ed, zt, e))
+       ELSE Bad(CHOOSE j \in js : TRUE)
 =============================================================================
